@@ -497,7 +497,7 @@ def main(tier: str, only=None) -> int:
     rep = replay_known(run)
     try:
         import vp.harness.c12x  # noqa: F401
-        xh.run_obligations(run, ["vp.harness.c12x"], tier, only)
+        xh.run_obligations(run, ["vp.harness.c12x", "vp.harness.c12_cache"], tier, only)
     except ModuleNotFoundError:
         pass
     nz = len([r for r in zres if r["verdict"] in ("sat", "unsat")])
